@@ -537,5 +537,5 @@ META = dict(
         "with operator precedence as parsed, the three parallel sequences of SMMap.write (same slots, same order, "
         "hold-typed lists twice with head then tail), the positional pairing of computed beats with the list they "
         "were computed from, and the per-chart header order."),
-    not_decided="per-measure LCM and cap, row index arithmetic, padding count, the 1/96-beat bound, round(beat, 2)",
+    not_decided="per-measure LCM and cap as numbers, the 1/96-beat bound as a number (the written precision of tempo beats is decided: >= 3 decimals)",
 )
